@@ -400,6 +400,10 @@ class C14(LoopProp):
             cases.append((mode, "127.0.0.1", "down", 512, 1, 5, 700, "sub/f.bin"))
         # directed: the file named on the command line is a symbolic link - it is uploaded under the name the user gave
         cases.append(("multi", "127.0.0.1", "up", 512, 1, 5, 900, "@link"))
+        # directed: a server listening on the IPv6 wildcard (`-i ::`, dual stack) reached over ::1 and over 127.0.0.1
+        for mode in ["multi", "single"]:
+            cases.append((mode, "::|::1", "down", 512, 1, 5, 700, "f.bin"))
+            cases.append((mode, "::|127.0.0.1", "up", 512, 2, 5, 1300, ""))
         if tier == "thorough":
             for w in (8, 64):
                 cases.append(("multi", "127.0.0.1", "down", 8, w, 1, 8 * 65537 + 3, "f.bin"))
@@ -407,21 +411,23 @@ class C14(LoopProp):
         servers = {}
         try:
             for (mode, ip, direction, b, w, t, size, name) in cases:
-                key = (mode, ip)
+                # "bind|client": the server binds the first address, the client talks to the second
+                bind_ip, ip = (ip.split("|") + [ip])[:2] if "|" in ip else (ip, ip)
+                key = (mode, bind_ip)
                 if key not in servers:
-                    sdir = os.path.join(root, "srv-%s-%s" % (mode, "6" if ":" in ip else "4"))
+                    sdir = os.path.join(root, "srv-%s-%s" % (mode, "any6" if bind_ip == "::" else ("6" if ":" in bind_ip else "4")))
                     os.makedirs(os.path.join(sdir, "sub"), exist_ok=True)
                     ok = False
                     for _ in range(20):
                         port = free_port()
-                        args = [tftpd, "-i", ip, "-p", str(port), "-d", sdir, "--overwrite"] + (["-s"] if mode == "single" else [])
+                        args = [tftpd, "-i", bind_ip, "-p", str(port), "-d", sdir, "--overwrite"] + (["-s"] if mode == "single" else [])
                         p = subprocess.Popen(args, stdout=subprocess.DEVNULL, stderr=subprocess.DEVNULL)
                         time.sleep(0.15)
                         if p.poll() is None:
                             ok = True
                             break
                     if not ok:
-                        if ":" in ip:
+                        if ":" in bind_ip:
                             continue   # no IPv6 loopback in this sandbox: not a verdict
                         viol.append(("process-level " + str(key), "server did not start", "tftpd does not start", "server-start"))
                         continue
